@@ -20,10 +20,12 @@ func init() {
 		Run:            runC23,
 		MinObligations: 60,
 		Technique:      "static analysis: table agreement between the RLP writer's tag formulas and every reader's tag partition (boundaries and offsets extracted from branch guards), sibling agreement of reflect.Kind case sets, guard dominance of every input-sized allocation and of every narrowing store, must-pass-through of element counting and key sorting",
-		LevelText:      "Decides the structural conditions the round trip and the rejection of malformed input rest on: (1) writeBytes/writeList emit tags 0x80+len / 0xB7+n / 0xC0+len / 0xF7+n with the short form up to 55 bytes, and skipOne, readBytes, readList and ReadRaw partition the tag byte at exactly those boundaries with exactly those offsets; nil is 0xF8 0x00 on both sides; (2) every element writer counts itself exactly once in its parent (map parity check on Close); (3) every allocation whose size comes from the input is bounded by a tag class (≤ 55) or dominated by `size ≤ maxSB`, and every header slice stays inside the 9-byte header; (4) every sub-64-bit integer kind is stored only behind `value == T64(Tn(value))` for its own width, and only behind a successful overflow-checked conversion; (5) encodeValue/decodeValue and WriteValue/ReadValue accept the same kinds (Interface is encode-only); (6) map keys pass sort.Slice with the comparator of their own kind family on every path before emission, and unsupported key kinds are errors.",
+		LevelText:      "Decides the structural conditions the round trip and the rejection of malformed input rest on: (1) writeBytes/writeList emit tags 0x80+len / 0xB7+n / 0xC0+len / 0xF7+n with the short form up to 55 bytes, and skipOne, readBytes, readList and ReadRaw partition the tag byte at exactly those boundaries with exactly those offsets; nil is 0xF8 0x00 on both sides; (2) every element writer counts itself exactly once in its parent (map parity check on Close); (3) every allocation whose size comes from the input is bounded by a tag class (≤ 55) or dominated by `size ≤ maxSB`, and every header slice stays inside the 9-byte header; (4) every sub-64-bit integer kind is stored only behind `value == T64(Tn(value))` for its own width, and only behind a successful overflow-checked conversion; (5) encodeValue/decodeValue and WriteValue/ReadValue accept the same kinds (Interface is encode-only); (6) map keys pass sort.Slice with the comparator of their own kind family on every path before emission, and unsupported key kinds are errors; (7) closing a sub-reader/sub-writer (flush) is never deferred or discarded — its error reaches the caller — and a container decode succeeds only through that close, which is where a list announcing more payload than the input holds is rejected.",
 		LevelNote:      "Not decided: equality of decoded and encoded values for all inputs (a runtime relation), absence of panics inside reflect, and the msgpack codec.",
-		Explanation:    "C23 rules: tag-partition (K4), null (K4), count (K2), bounded-alloc (K11), narrowing (K1 sibling), kinds (K4 AST), sorted-maps (K2).",
+		Explanation:    "C23 rules: tag-partition (K4), null (K4), count (K2), bounded-alloc (K11), narrowing (K1 sibling), kinds (K4 AST), sorted-maps (K2), close-propagated (K2 + error discipline).",
 		Mutants: []Mutant{
+			{Name: "struct-flush-deferred", File: "common/codec/codec.go", Old: "\t\tif err := decodeRecursiveFields(d2, elem); err != nil {\n\t\t\treturn err\n\t\t}\n\t\treturn d.flush()\n", New: "\t\tdefer d.flush()\n\t\treturn decodeRecursiveFields(d2, elem)\n", Desc: "a struct list announcing more payload than the input holds is accepted"},
+			{Name: "map-flush-ignored", File: "common/codec/codec.go", Old: "\t\telem.Set(m)\n\t\treturn d.flush()", New: "\t\telem.Set(m)\n\t\t_ = d.flush()\n\t\treturn nil", Desc: "close error of a decoded map is dropped"},
 			{Name: "readlist-boundary", File: "common/codec/rlp.go", Old: "\tcase tag <= 0xF7:\n\t\tsize := tag - 0xC0\n\t\treturn &rlpReader{", New: "\tcase tag < 0xF7:\n\t\tsize := tag - 0xC0\n\t\treturn &rlpReader{", Desc: "55-byte lists decoded as empty"},
 			{Name: "skip-offset", File: "common/codec/rlp.go", Old: "\tcase tag <= 0xF7:\n\t\tsz := tag - 0xC0\n\t\treturn r.skipN(sz)", New: "\tcase tag <= 0xF7:\n\t\tsz := tag - 0xBF\n\t\treturn r.skipN(sz)", Desc: "Skip consumes one byte too many"},
 			{Name: "writer-short-limit", File: "common/codec/rlp.go", Old: "\tcase l <= 55:\n\t\tvar header [1]byte\n\t\theader[0] = byte(0xC0 + l)", New: "\tcase l <= 56:\n\t\tvar header [1]byte\n\t\theader[0] = byte(0xC0 + l)", Desc: "56-byte list written with a long-form tag value"},
@@ -803,6 +805,75 @@ func runC23(c *Ctx) {
 			_, a1 := callArgs(emits[1].Common())
 			k0 := render(a0[0])
 			c.check(strings.Contains(render(a1[0]), ".MapIndex("+k0+")"), "C23.sorted-maps", "value emitted is the one of the key just emitted", emits[1].Pos(), "v.MapIndex(keys[i])", "value "+render(a1[0])+" for key "+k0)
+		}
+	}
+
+	// ------------------------------------------------------------ close-propagated
+	// Closing a sub-reader (flush) drains the rest of its list; that is where a
+	// list announcing more payload than the input holds is rejected. The error
+	// must reach the caller, and every container decode must pass through it.
+	nFlush := 0
+	for _, fn := range c.pkgFuncs(pk) {
+		for _, cs := range c.calls(fn, byCallee("decoderImpl).flush", "encoderImpl).flush")) {
+			nFlush++
+			name := fnName(fn) + ": " + strings.TrimPrefix(calleeName(cs.Common()), "(*common/codec.")
+			call, isCall := cs.Instr.(*ssa.Call)
+			if !isCall {
+				c.violate("C23.close-propagated", name+" result reaches the caller", cs.Pos(), "flush is deferred: its error (sizes beyond the input, write failures) is dropped and malformed input is accepted")
+				continue
+			}
+			used := false
+			if call.Referrers() != nil {
+				for _, ref := range *call.Referrers() {
+					switch r := ref.(type) {
+					case *ssa.Return:
+						used = true
+					case *ssa.BinOp:
+						used = true
+					case *ssa.Store:
+						used = true
+					case *ssa.Phi:
+						used = true
+					default:
+						_ = r
+					}
+				}
+			}
+			c.check(used, "C23.close-propagated", name+" result reaches the caller", cs.Pos(), "returned / checked", "the error of flush is discarded: a list whose announced size runs past the input is accepted")
+		}
+	}
+	c.check(nFlush >= 8, "C23.close-propagated", "flush sites found", token.NoPos, fmt.Sprint(nFlush), fmt.Sprintf("%d flush sites", nFlush))
+	if dv := c.mustFn(pk, "decoderImpl", "decodeValue"); dv != nil {
+		for _, op := range c.calls(dv, byCallee("decoderImpl).decodeList", "decoderImpl).decodeMap")) {
+			ev := errValueOf(op.Instr)
+			for _, e := range successAlts(dv) {
+				if !dominatesInstr(op.Instr, e.Ret) && !blockReaches(op.Instr.Block(), e.Ret.Block(), nil) {
+					continue
+				}
+				// paths on which the sub-reader was opened (err == nil, not the nil-value case) must flush before succeeding
+				pathEdgeFilter = func(p, sb *ssa.BasicBlock) bool {
+					for _, g := range edgeGuard(p, sb) {
+						bo, ok := g.Cond.(*ssa.BinOp)
+						if !ok {
+							continue
+						}
+						nonNil := (bo.Op == token.NEQ && g.Pol) || (bo.Op == token.EQL && !g.Pol)
+						if nonNil && ((bo.X == ev && isNilConst(bo.Y)) || (bo.Y == ev && isNilConst(bo.X))) {
+							return true
+						}
+					}
+					return false
+				}
+				tr, reach := pathAvoiding(dv, op.Instr, isInstr(e.Ret), isCallTo(byCallee("decoderImpl).flush")))
+				pathEdgeFilter = nil
+				if reach {
+					// the only legitimate bypass returns the flush result itself
+					if cl, ok := unwrap(e.Results[0]).(*ssa.Call); ok && strings.HasSuffix(calleeName(cl.Common()), "decoderImpl).flush") {
+						reach = false
+					}
+				}
+				c.check(!reach, "C23.close-propagated", "a container decode succeeds only through closing its sub-reader", op.Pos(), "decodeList … flush", "decodeValue can succeed on a container without closing (draining and size-checking) its sub-reader ("+traceString(tr)+")")
+			}
 		}
 	}
 }
